@@ -100,6 +100,7 @@ type Lemma struct {
 	Hyps   []Clause
 	Concl  []Clause
 	Splits []Split
+	Uses   []UseLemma // instances of earlier lemmas assumed in the proof
 	File   string
 	Line   int
 	Timeout int
@@ -626,6 +627,10 @@ func (cs *Contracts) LoadContractFile(path string, pkgShort string) error {
 			}
 			for _, a := range call.Args {
 				u.Args = append(u.Args, Clause{Expr: a, File: path, Line: r.line})
+			}
+			if cur == nil && curLemma != nil {
+				curLemma.Uses = append(curLemma.Uses, u)
+				break
 			}
 			if cur == nil {
 				return fmt.Errorf("%s:%d: use outside func", path, r.line)
